@@ -684,14 +684,14 @@ func ruleDefaults(r *Run, rule, typ string) {
 			}
 			if e.Kind == EvAssign && len(e.Lhs) == 1 && len(e.Rhs) == 1 {
 				if _, m := FieldPath(info, e.Lhs[0], owner, "ID"); m {
-					if c, ok := ast.Unparen(e.Rhs[0]).(*ast.CallExpr); ok {
+					if c, ok := ast.Unparen(e.Rhs[0]).(*ast.CallExpr); ok { // (a wrapper around NewV7 is followed by the call graph below)
 						if f, ok := calleeFunc(info, c); ok && (FuncKey(f) == wfKey("NewV7") || FuncKey(f) == "github.com/google/uuid.NewV7") {
 							idOK = true
 						}
 					}
 				}
-				if _, m := FieldPath(info, e.Lhs[0], owner, "State"); m {
-					if cl := compositeOf(e.Rhs[0]); cl != nil {
+				if _, m := FieldPath(info, e.Lhs[0], owner, "State"); m && len(e.Results()) == 1 {
+					if cl := compositeOf(e.Results()[0]); cl != nil {
 						v := keyValue(cl, "Status")
 						onlyStatus := len(cl.Elts) == 1
 						if v != nil && ValueKey(info, v) == "workflow.NotStarted" && onlyStatus {
